@@ -5,7 +5,7 @@ by the reference model) + the sample corpus decoded by the reference.
 Oracle: refbufr values / labels, position by position (DESIGN 7-C01)."""
 import json
 
-from vlib import runner, sut, corpusio, fuzz
+from vlib import runner, sut, corpusio, fuzz, std
 from vlib.compare import first_value_diff
 from vlib.runner import Outcome, Report
 from gen import messages as gmsg
@@ -153,6 +153,7 @@ def run(tier, seed):
                                 stage='table versions')
         n_pairs += 1
     rep.extra['table_version_twins'] = n_pairs
+    std.run_boundary(rep, tier, check_case)
     # corpus
     stride = 20 if tier == 'quick' else 1
     items = corpusio.messages(stride=stride, offset=seed)
